@@ -177,3 +177,78 @@ var _ *cluster.Conn
 //@ loop 2
 //@ invariant [in-ready] wfGroup(this) && saved == 1 && leaderTests == 1 && sent == leaderTop && (leaderTop == 1) == (this.raftLeaderId == this.transport.nodeId) && (leaderTop == 0 || leaderTop == 1) && 0 - 1 <= rangeindex && rangeindex + 1 <= len(rd.CommittedEntries)
 //@ invariant [C03 applied-index] rangeindex >= 0 ==> lastAppliedIdx == entry.Index
+
+// C03: recovery. Start re-installs the stored snapshot (if any) before the ready loop is launched, and fails if that fails.
+//@ func (*storage/raft.RaftGroup).Start
+//@ props C03 C14
+//@ safety C12
+//@ ghost restored int = 0
+//@ ghost emptySnap int = 0
+//@ ghost started int = 0
+//@ at call raft.IsEmptySnap
+//@ set emptySnap = ite($ret0, 1, 0)
+//@ end
+//@ at call field:storage/raft.RaftGroup.processSnapshotFn
+//@ set restored = 1
+//@ end
+//@ at go RaftGroup).run
+//@ requires [C03 restore-before-run] emptySnap == 1 || restored == 1
+//@ set started = 1
+//@ end
+//@ requires [C14 consumers-registered] wfGroup(this)
+//@ ensures [C03 started-iff-ok] (started == 1) == isnil(ret)
+//@ modifies *
+
+// C03: a local snapshot is labelled with exactly the applied index it was asked for, and carries the bytes snapshotFn produced
+// on this very goroutine (no `go` in between).
+//@ func (*storage/raft.RaftGroup).trySnapshot
+//@ props C03
+//@ safety C12
+//@ ghost gotData int = 0
+//@ ghost snapData []byte = nil
+//@ at call field:storage/raft.RaftGroup.snapshotFn
+//@ set gotData = ite(isnil($ret1), 1, 0)
+//@ set snapData = $ret0
+//@ end
+//@ at call WAL.CreateSnapshot
+//@ requires [C03 snapshot-label] $arg1 == lastCommittedIdx
+//@ requires [C03 snapshot-data] gotData == 1 && $arg3 == snapData
+//@ end
+//@ at go snapshotFn
+//@ requires [C03 snapshot-same-goroutine] false
+//@ end
+//@ requires [wf] !isnil(this.wal) && this.log != nil
+//@ modifies nothing
+
+// C05: starting a node from scratch (StartNode bootstraps a new log at term 1) is only legal on storage that holds nothing;
+// a node with a past must be restarted (RestartNode). freshStorage is an abstract predicate: nothing in anndb establishes it
+// except creating a store that did not exist.
+//@ ufunc freshStorage(wal.WAL) bool
+
+//@ func github.com/coreos/etcd/raft.StartNode
+//@ props C05
+//@ assume
+//@ requires [C05 fresh-storage] freshStorage(c.Storage.(wal.WAL))
+//@ ensures [node] !isnil(ret)
+//@ modifies nothing
+
+//@ func github.com/coreos/etcd/raft.RestartNode
+//@ props C05
+//@ assume
+//@ ensures [node] !isnil(ret)
+//@ modifies nothing
+
+//@ func storage/raft.startRaftNode
+//@ props C05
+//@ safety C12
+//@ requires [C05 fresh-storage] len(nodeIds) > 0 ==> freshStorage(storage)
+//@ ensures [node] isnil(ret1) && !isnil(ret0)
+//@ modifies nothing
+//@ loop 1
+//@ invariant [peers-local] isnil(peers) || fresh(peers)
+
+//@ func storage/raft.NewRaftGroup
+//@ props C05
+//@ assume
+//@ requires [C05 fresh-storage] len(nodeIds) > 0 ==> freshStorage(storage)
+//@ modifies *
